@@ -52,6 +52,13 @@ def cleanStep (acc : P) (seg : List Nat) : P :=
 /-- `filepath.Join(root, name)` for a clean absolute `root` -/
 def cleanJoin (root : P) (name : List Nat) : P := (splitSlash name).foldl cleanStep root
 
+/-- `filepath.Abs(dst)`, the first statement of both `ExtractWithMask`: an absolute `dst` is cleaned, a relative one
+    (the empty string included) is joined to the working directory and cleaned.  `cwd` is what `os.Getwd` returns, a
+    clean absolute path.  (A failing `Getwd` — the working directory was removed — is an error before anything
+    happens; not modelled.) -/
+def absPath (cwd : P) (dst : List Nat) : P :=
+  if dst.head? = some 47 then cleanJoin [] dst else cleanJoin cwd dst
+
 /-- the text of an absolute path: "/a/b" (the file-system root itself is never a destination) -/
 def render (p : P) : List Nat := p.flatMap (fun c => 47 :: c)
 
